@@ -171,7 +171,10 @@ def run(db, chk) -> None:
     lk = cs.func("CallStackGraph._link_cpu_and_gpu")
     calls = [c for c in H.calls(lk) if isinstance(c.func, ast.Attribute) and c.func.attr == "_add_edge"]
     proj = [n for n in ast.walk(lk) if isinstance(n, ast.List) and [H.str_const(e) for e in n.elts] == ["cpu_index", "gpu_index"]]
-    loop = [n for n in ast.walk(lk) if isinstance(n, ast.For) and isinstance(n.target, ast.Tuple) and [H.name_id(e) for e in n.target.elts] == ["cpu_index", "gpu_index"]]
-    ok = len(calls) == 1 and len(proj) == 1 and len(loop) == 1 and [H.name_id(a) for a in calls[0].args[:2]] == ["cpu_index", "gpu_index"]
+    loop = [n for n in ast.walk(lk) if isinstance(n, ast.For) and isinstance(n.target, ast.Tuple) and len(n.target.elts) == 2]
+    ok = False
+    if len(calls) == 1 and len(proj) == 1 and len(loop) == 1:
+        a_, b_ = (H.name_id(e) for e in loop[0].target.elts)
+        ok = [H.name_id(x) for x in calls[0].args[:2]] == [a_, b_] and any(calls[0] is x for x in ast.walk(loop[0]))
     chk.ob("C02.R5-pairs", "consumer reads (cpu_index, gpu_index) in that order and adds the edge launch call -> device activity", ok, cs.loc(lk),
            found={"projection": [ast.unparse(p) for p in proj], "edge": [ast.unparse(c) for c in calls]}, accepted="[['cpu_index','gpu_index']] ... _add_edge(cpu_index, gpu_index, GPU)")
